@@ -179,3 +179,5 @@ PROP = Prop(
     ],
     assumptions=["'moderate magnitude': |score| <= ~2e6; tie-free inputs have separation >= 1e-3"],
 )
+
+RULE_EXTRA = ('score scales 1e-9..1e6; uint8/int8/int16/uint16/float16 scores near the top of their range (zero clause); GroupScores over the same unsorted data must give the same eer().')
